@@ -18,6 +18,9 @@ stdout is captured, and the record is judged by
               without meeting it (criterion met exactly on the cap-th evaluation: recorded, not judged); the per-iteration
               log lines reproduce the recorded max force / Etot / dE
   padding     padding coordinates bitwise unchanged
+  reuse       driver-reuse sequences (case kind "reuse"): ONE optimiser object, 2-3 run() calls on fresh Molecules
+              (converging run then cap-bound run, the reverse, three-run orders); every run is judged with the update /
+              descent / stop / returned / report / padding clauses, so nothing of an earlier run may leak into a later one
   isolation   path of every molecule alone (same alpha / tolerance / cap) equals its path in the batch within 1e-7 A on
               the common prefix (alpha <= 2e-3; for larger alpha the update map can be expansive, so only the first
               three evaluations are judged and the rest recorded)
@@ -39,7 +42,8 @@ ASSUMPTIONS = ["float64 CPU", "scf_eps 1e-10 (some 1e-8): force noise 2e3 eps be
                "the tie 'criterion first met on the cap-th evaluation' is recorded, not judged (statement leaves it open)",
                "dE of a run with a single evaluation (E_1 - 0) is recorded, not judged"]
 REQUIRED_MONITORS = ["onestep_calls", "independent_single_points", "runs_stopped_by_criterion", "runs_stopped_by_cap",
-                     "padding_atoms_checked", "alone_vs_batch_rows"]
+                     "padding_atoms_checked", "alone_vs_batch_rows", "reuse_cap_run_after_converged_run",
+                     "reuse_converged_run_after_cap_run"]
 CASE_TIMEOUT = 900.0
 BUDGET_S = {"quick": 200, "thorough": 1700}
 MIN_NONTRIVIAL = 4
@@ -81,8 +85,28 @@ def gen_cases(tier, seed):
                       "alpha": alpha, "stop": list(stop), "cap": cap, "sigma": float(g.choice([0.03, 0.05, 0.08])),
                       "extra_pad": int(g.integers(0, 3)), "pad_value": ["zero", "random", "far"][k % 3],
                       "geom_seed": int(g.integers(0, 2 ** 31))})
+    # driver-reuse sequences: one optimiser object, 2-3 runs on fresh molecules
+    conv, capr = ("ratio", 0.75), ("cap", 0.0)
+    orders = [[conv, capr], [capr, conv], [conv, capr, conv], [capr, conv, capr], [conv, conv, capr], [conv, capr, capr]]
+    nr = 6 if q else 48
+    rsmall = ["H2O", "NH3", "HF", "H2", "CH4", "HCN", "CO", "H2S", "HCl", "N2"]
+    for k in range(nr):
+        method = methods[k % len(methods)]
+        names = [m for m in rsmall if gen.available(m, method)]
+        mols = [names[int(i)] for i in g.choice(len(names), 1 + k % 2, replace=False)]
+        solver, par = [("pulay", None), ("adaptive", None), ("mix", 0.3)][k % 3]
+        runs = []
+        for st in orders[k % len(orders)]:
+            if st[0] == "ratio":
+                runs.append({"stop": ["ratio", float(g.choice([0.6, 0.75, 0.85]))], "cap": int(g.choice([20, 25, 30])),
+                             "geom_seed": int(g.integers(0, 2 ** 31))})
+            else:
+                runs.append({"stop": ["cap", 0.0], "cap": int(g.choice([2, 3, 4, 5])), "geom_seed": int(g.integers(0, 2 ** 31))})
+        cases.append({"kind": "reuse", "mols": mols, "method": method, "solver": solver, "solver_par": par, "eps": 1e-10,
+                      "grad": ["autodiff", "analytical"][k % 2], "alpha": float([2e-3, 1e-3][k % 2]), "sigma": 0.05,
+                      "extra_pad": int(k % 2), "pad_value": ["zero", "far"][k % 2], "runs": runs, "cap": 0})
     # expensive first
-    cases.sort(key=lambda c: -(c["cap"] * sum(len(gen.molecule(m)[0]) for m in c["mols"])))
+    cases.sort(key=lambda c: -((c["cap"] or sum(r["cap"] for r in c.get("runs", []))) * sum(len(gen.molecule(m)[0]) for m in c["mols"])))
     return cases
 
 
@@ -131,8 +155,10 @@ def _batch(case):
 _LINE = re.compile(r"^(\d+)\s+([-+0-9.eE]+|nan|inf)\s+\|\|(.*)$")
 
 
-def _sd_run(case, S, C, charges, mults, alpha, tol, cap):
-    """one real Geometry_Optimization_SD.run with the onestep recorder -> record dict"""
+def _sd_run(case, S, C, charges, mults, alpha, tol, cap, drv=None):
+    """one real Geometry_Optimization_SD.run with the onestep recorder -> record dict.
+    drv: a dict kept by the caller; when given, the SAME optimiser object (and its settings dictionary) is reused for
+    this run on a fresh Molecule, with alpha / force_tol / max_evl set as attributes (driver-reuse sequences)."""
     import contextlib
     import io
     import warnings
@@ -141,80 +167,56 @@ def _sd_run(case, S, C, charges, mults, alpha, tol, cap):
     from seqm.MolecularDynamics import Geometry_Optimization_SD
     from vlib import run
 
-    sett = _settings(case)
     ch = charges if len(set(charges)) > 1 else charges[0]
-    with run.quiet():
-        mol, _es, sett2 = run.build(S, C, sett, charges=ch, mult=1)
-        sd = Geometry_Optimization_SD(sett2, alpha=alpha, force_tol=tol, max_evl=cap)
-    rec = []
-    orig = sd.onestep
+    if drv is not None and drv.get("sd") is not None:
+        from seqm.Molecule import Molecule
+        from seqm.seqm_functions.constants import Constants
 
-    def onestep(molecule, learned_parameters=dict()):
-        xb = molecule.coordinates.detach().clone().numpy()
-        f, e = orig(molecule, learned_parameters=learned_parameters)
-        nc = getattr(sd.esdriver, "notconverged", None)
-        dm = getattr(molecule, "dm", None)
-        rec.append({"xb": xb, "F": f.detach().clone().numpy(), "E": e.detach().clone().numpy().reshape(-1),
-                    "dm": None if dm is None else dm.detach().clone().numpy(),
-                    "xa": molecule.coordinates.detach().clone().numpy(),
-                    "nc": None if nc is None else np.asarray(nc.detach().clone().numpy(), bool).reshape(-1)})
-        return f, e
+        sd, st = drv["sd"], drv
+        sp = torch.as_tensor(np.asarray(S), dtype=torch.int64)
+        xyz = run.tens(C).clone()
+        chg = ch if isinstance(ch, (int, float)) else torch.as_tensor(np.asarray(ch), dtype=torch.float64)
+        with run.quiet():
+            mol = Molecule(Constants(), drv["sett"], xyz, sp, chg, 1)  # shares the optimiser's settings dict
+        sd.alpha, sd.force_tol, sd.max_evl = alpha, tol, cap
+        st["rec"] = []
+    else:
+        sett = _settings(case)
+        with run.quiet():
+            mol, _es, sett2 = run.build(S, C, sett, charges=ch, mult=1)
+            sd = Geometry_Optimization_SD(sett2, alpha=alpha, force_tol=tol, max_evl=cap)
+        st = drv if drv is not None else {}
+        st.update({"sd": sd, "sett": sett2, "rec": []})
+        orig = sd.onestep
 
-    sd.onestep = onestep
+        def onestep(molecule, learned_parameters=dict()):
+            xb = molecule.coordinates.detach().clone().numpy()
+            f, e = orig(molecule, learned_parameters=learned_parameters)
+            nc = getattr(sd.esdriver, "notconverged", None)
+            dm = getattr(molecule, "dm", None)
+            st["rec"].append({"xb": xb, "F": f.detach().clone().numpy(), "E": e.detach().clone().numpy().reshape(-1),
+                              "dm": None if dm is None else dm.detach().clone().numpy(),
+                              "xa": molecule.coordinates.detach().clone().numpy(),
+                              "nc": None if nc is None else np.asarray(nc.detach().clone().numpy(), bool).reshape(-1)})
+            return f, e
+
+        sd.onestep = onestep
     buf = io.StringIO()
     with warnings.catch_warnings():
         warnings.simplefilter("ignore")
         with contextlib.redirect_stdout(buf):
             ret = sd.run(mol)
-    return {"rec": rec, "stdout": buf.getvalue(), "ret": (float(ret[0]), float(ret[1])),
+    return {"rec": st["rec"], "stdout": buf.getvalue(), "ret": (float(ret[0]), float(ret[1])),
             "x_final": mol.coordinates.detach().clone().numpy(), "tol": tol, "cap": cap}
 
 
-def run_case(case):
-    from vlib import run
-
-    viol, margins, mon, cells = [], {}, {}, set()
-
-    def count(k, n=1):
-        mon[k] = mon.get(k, 0) + int(n)
-
-    def margin(name, val, bound):
-        r = float(val) / float(bound)
-        if name not in margins or r > margins[name]:
-            margins[name] = r
-        return r > 1.0
-
-    def violate(clause, **detail):
-        if len(viol) < 12:
-            detail.update({"mols": case["mols"], "alpha": case["alpha"]})
-            viol.append({"clause": clause, "mech": None, "detail": detail})
-
-    S, C0, charges, mults = _batch(case)
-    nmol = S.shape[0]
-    real = S > 0
-    alpha, cap = float(case["alpha"]), int(case["cap"])
-    ch = charges if len(set(charges)) > 1 else charges[0]
-    # tolerance from an independent evaluation of the start geometry
-    sp0 = run.single_point(S, C0, _settings(case, cold=True), charges=ch, mult=1)
-    if sp0["notconverged"] is not None and bool(np.any(sp0["notconverged"])):
-        return {"ineligible": "start geometry not SCF-converged"}
-    m1 = float(np.abs(sp0["force"]).max())
-    kind, val = case["stop"]
-    tol = {"ratio": val * m1, "cap": 1e-6, "abs": val}[kind]
-    out = _sd_run(case, S, C0, charges, mults, alpha, tol, cap)
+def _judge_basic(count, margin, violate, cells, case, out, S, C0, alpha, tol, cap):
+    """update / chain / descent / stop / returned / report / padding clauses of ONE run() record"""
     rec = out["rec"]
     n = len(rec)
-    count("onestep_calls", n)
-    count("sd_runs")
-    if n == 0:
-        return {"inconclusive": "onestep wrapper saw no call"}
-    if any(r["nc"] is not None and r["nc"].any() for r in rec):
-        return {"ineligible": "an SCF inside the optimisation was flagged not converged", "monitors": mon}
+    nmol = S.shape[0]
+    real = S > 0
     eps_eff, A = _eps_eff(case), _amp(case)
-    solver_cell = "%s/%s/%s" % (case["method"], case["solver"], case["grad"])
-    cells.add("solver/" + solver_cell)
-    cells.add("alpha/%g" % alpha)
-    cells.add("layout/nmol%d/pad%s" % (nmol, "yes" if (~real).any() else "no"))
     # ---- update rule, chain --------------------------------------------------------------------------
     xmax = max(1.0, float(np.abs(C0[real]).max()))
     for i, r in enumerate(rec):
@@ -234,66 +236,6 @@ def run_case(case):
             break
     if not np.array_equal(out["x_final"].view(np.int64), rec[-1]["xa"].view(np.int64)):
         violate("final-coordinates-are-last-update", maxdiff=float(np.abs(out["x_final"] - rec[-1]["xa"]).max()))
-    # ---- independent single points at recorded x_i ------------------------------------------------------
-    idx = list(range(n)) if n <= 8 else sorted(set([0, 1, 2, n - 3, n - 2, n - 1] + [int(i) for i in np.random.default_rng(case["geom_seed"] + 1).choice(n, 3, replace=False)]))
-    # C04's force bound is 2e3 eps_eff A; here the SCF is restarted from the density of the previous geometry at every
-    # evaluation (fixed mixing measured at 0.24 of that bound), so 5x that allowance keeps the margin >= 5x while a stale
-    # or sign-flipped force is >= 1e-3 eV/A
-    tolF = 1e4 * (eps_eff + EPS_REF) * A + 1e-9
-    tolE = 100 * (eps_eff + EPS_REF) * A + 1e-9  # C04's 20 eps_eff A, same x5 allowance (SP2 at its 1e-7 floor: 6.7 eps_eff seen)
-    # The independent evaluation is a cold start, so it may land on ANOTHER self-consistent solution than the warm-started
-    # run (seen: MNDO PH3, cold Pulay converges, flagged converged, to a state 37 eV above the one every other solver and
-    # the optimiser find).  That is C03/C04 territory, not a stale force: a row passes when the recorded (E, F) equal those
-    # of SOME cold-started solver at the recorded x_i; the alternates are only run for rows the first one does not match.
-    # Last resort (seen: AM1 H2S, the run's own first cold Pulay lands on a state 14 eV above the ground SCF solution
-    # and the optimiser then follows it by density reuse, so NO cold start reproduces it): a fresh Molecule + driver at
-    # x_i started from the density the run had at that evaluation.  Still a single point at the recorded geometry,
-    # outside the optimiser: a stale / sign-flipped / wrong-geometry force cannot match it.
-    def cold_solvers(i):
-        yield "pulay", run.settings(case["method"], eps=EPS_REF, converger=(2,), grad=case["grad"]), None
-        yield "adaptive", run.settings(case["method"], eps=EPS_REF, converger=(1,), grad=case["grad"]), None
-        yield "mix0.3", run.settings(case["method"], eps=EPS_REF, converger=(0, 0.3), grad=case["grad"]), None
-        if rec[i].get("dm") is not None:
-            warm = _settings(case)  # the run's own solver (another one may leave the state the run is on)
-            warm["scf_eps"] = EPS_REF
-            yield "warm-from-recorded-density", warm, rec[i]["dm"]
-
-    for i in idx:
-        best = [(float("inf"), float("inf"), None)] * nmol
-        ran = 0
-        for sname, sett, P0 in cold_solvers(i):
-            if all(bf <= tolF and be <= tolE for bf, be, _ in best):
-                break
-            sp = run.single_point(S, rec[i]["xb"], sett, charges=ch, mult=1, P0=P0)
-            ran += 1
-            ncv = sp["notconverged"]
-            for k in range(nmol):
-                if ncv is not None and bool(np.asarray(ncv).reshape(-1)[k]):
-                    continue
-                dFk = float(np.abs(sp["force"][k] - rec[i]["F"][k])[real[k]].max())
-                dEk = float(abs(sp["Etot"].reshape(-1)[k] - rec[i]["E"][k]))
-                if max(dFk / tolF, dEk / tolE) < max(best[k][0] / tolF, best[k][1] / tolE):
-                    best[k] = (dFk, dEk, sname)
-        if ran > 1:
-            count("independent_alternate_cold_solver_runs", ran - 1)
-        if any(bs is None for _, _, bs in best):
-            count("independent_single_point_not_converged")
-            continue
-        count("independent_single_points")
-        if any(bs != "pulay" for _, _, bs in best):
-            count("cold_pulay_found_another_scf_solution")
-        if any(bs == "warm-from-recorded-density" for _, _, bs in best):
-            count("run_follows_a_solution_no_cold_start_finds")
-        dF = max(bf for bf, _, _ in best)
-        dE = max(be for _, be, _ in best)
-        if margin("force_vs_independent_single_point", dF, tolF):
-            violate("force-is-that-of-the-recorded-geometry", evaluation=i + 1, max_diff=dF, bound=tolF,
-                    max_force=float(np.abs(rec[i]["F"]).max()), matched_solver=[bs for _, _, bs in best],
-                    vs_previous_geometry=None if i == 0 else float(np.abs(
-                        run.single_point(S, rec[i - 1]["xb"], _settings(case, cold=True), charges=ch, mult=1)["force"] - rec[i]["F"])[real].max()))
-        if margin("energy_vs_independent_single_point", dE, tolE):
-            violate("energy-is-that-of-the-recorded-geometry", evaluation=i + 1, max_diff=dE, bound=tolE,
-                    matched_solver=[bs for _, _, bs in best])
     # ---- descent ------------------------------------------------------------------------------------------
     E = np.array([r["E"] for r in rec])  # [n, nmol]
     if alpha <= ALPHA_DESCENT and n >= 2:
@@ -375,12 +317,190 @@ def run_case(case):
         count("padding_atoms_checked", npad)
         if not np.array_equal(out["x_final"][~real].view(np.int64), C0[~real].view(np.int64)):
             violate("padding-coordinates-bitwise-unchanged", max_shift=float(np.abs(out["x_final"][~real] - C0[~real]).max()),
-                    pad_value=case["pad_value"])
+                    pad_value=case.get("pad_value"))
         for r in rec:
             if not np.array_equal(r["xa"][~real].view(np.int64), C0[~real].view(np.int64)):
                 violate("padding-coordinates-bitwise-unchanged", during_run=True,
                         max_shift=float(np.abs(r["xa"][~real] - C0[~real]).max()))
                 break
+    return {"n": n, "m": m, "E": E, "by_criterion": by_criterion, "by_cap": by_cap, "tie": tie, "rF": rF, "rE": rE,
+            "text": text}
+
+
+def _run_reuse(case):
+    """driver reuse: ONE Geometry_Optimization_SD object, several run() calls on fresh Molecules with different
+    tolerances / caps; every run is judged with the per-run clauses (nothing of an earlier run may leak into the
+    stop decision, the returned values or the textual report of a later one)."""
+    from vlib import run
+
+    viol, margins, mon, cells = [], {}, {}, set()
+    tag = {"run": 0}
+
+    def count(k, n=1):
+        mon[k] = mon.get(k, 0) + int(n)
+
+    def margin(name, val, bound):
+        r = float(val) / float(bound)
+        if name not in margins or r > margins[name]:
+            margins[name] = r
+        return r > 1.0
+
+    def violate(clause, **detail):
+        if len(viol) < 12:
+            detail.update({"mols": case["mols"], "alpha": case["alpha"], "run_index": tag["run"],
+                           "earlier_runs_stopped": list(history), "same_optimiser_object": True})
+            viol.append({"clause": clause, "mech": None, "detail": detail})
+
+    alpha = float(case["alpha"])
+    drv = {}
+    history = []
+    obs_runs = []
+    for j, rn in enumerate(case["runs"]):
+        tag["run"] = j
+        sub = dict(case)
+        sub["geom_seed"] = int(rn["geom_seed"])
+        S, C0, charges, mults = _batch(sub)
+        ch = charges if len(set(charges)) > 1 else charges[0]
+        sp0 = run.single_point(S, C0, _settings(case, cold=True), charges=ch, mult=1)
+        if sp0["notconverged"] is not None and bool(np.any(sp0["notconverged"])):
+            return {"ineligible": "start geometry not SCF-converged", "monitors": mon}
+        m1 = float(np.abs(sp0["force"]).max())
+        kind, val = rn["stop"]
+        tol = {"ratio": val * m1, "cap": 1e-6, "abs": val}[kind]
+        cap = int(rn["cap"])
+        out = _sd_run(case, S, C0, charges, mults, alpha, tol, cap, drv=drv)
+        count("onestep_calls", len(out["rec"]))
+        count("sd_runs")
+        if not out["rec"]:
+            return {"inconclusive": "onestep wrapper saw no call", "monitors": mon}
+        if any(r["nc"] is not None and r["nc"].any() for r in out["rec"]):
+            return {"ineligible": "an SCF inside the optimisation was flagged not converged", "monitors": mon}
+        jb = _judge_basic(count, margin, violate, cells, case, out, S, C0, alpha, tol, cap)
+        how = "criterion" if jb["by_criterion"] else ("cap" if jb["by_cap"] else "tie")
+        count("reuse_runs_judged")
+        if how == "cap" and "criterion" in history:
+            count("reuse_cap_run_after_converged_run")
+        if how == "criterion" and "cap" in history:
+            count("reuse_converged_run_after_cap_run")
+        history.append(how)
+        obs_runs.append({"stopped": how, "evaluations": jb["n"], "cap": cap, "tol": tol, "last_max_force": float(jb["m"][-1]),
+                         "report_tail": jb["text"].strip().splitlines()[-1][:100] if jb["text"].strip() else ""})
+    cells.add("reuse/" + ">".join(history))
+    cells.add("solver/%s/%s/%s" % (case["method"], case["solver"], case["grad"]))
+    return {"nontrivial": len(history) >= 2, "violations": viol, "margins": margins, "monitors": mon,
+            "cells": sorted(cells), "obs": {"runs": obs_runs}}
+
+
+def run_case(case):
+    from vlib import run
+
+    if case.get("kind") == "reuse":
+        return _run_reuse(case)
+
+    viol, margins, mon, cells = [], {}, {}, set()
+
+    def count(k, n=1):
+        mon[k] = mon.get(k, 0) + int(n)
+
+    def margin(name, val, bound):
+        r = float(val) / float(bound)
+        if name not in margins or r > margins[name]:
+            margins[name] = r
+        return r > 1.0
+
+    def violate(clause, **detail):
+        if len(viol) < 12:
+            detail.update({"mols": case["mols"], "alpha": case["alpha"]})
+            viol.append({"clause": clause, "mech": None, "detail": detail})
+
+    S, C0, charges, mults = _batch(case)
+    nmol = S.shape[0]
+    real = S > 0
+    alpha, cap = float(case["alpha"]), int(case["cap"])
+    ch = charges if len(set(charges)) > 1 else charges[0]
+    # tolerance from an independent evaluation of the start geometry
+    sp0 = run.single_point(S, C0, _settings(case, cold=True), charges=ch, mult=1)
+    if sp0["notconverged"] is not None and bool(np.any(sp0["notconverged"])):
+        return {"ineligible": "start geometry not SCF-converged"}
+    m1 = float(np.abs(sp0["force"]).max())
+    kind, val = case["stop"]
+    tol = {"ratio": val * m1, "cap": 1e-6, "abs": val}[kind]
+    out = _sd_run(case, S, C0, charges, mults, alpha, tol, cap)
+    rec = out["rec"]
+    n = len(rec)
+    count("onestep_calls", n)
+    count("sd_runs")
+    if n == 0:
+        return {"inconclusive": "onestep wrapper saw no call"}
+    if any(r["nc"] is not None and r["nc"].any() for r in rec):
+        return {"ineligible": "an SCF inside the optimisation was flagged not converged", "monitors": mon}
+    eps_eff, A = _eps_eff(case), _amp(case)
+    solver_cell = "%s/%s/%s" % (case["method"], case["solver"], case["grad"])
+    cells.add("solver/" + solver_cell)
+    cells.add("alpha/%g" % alpha)
+    cells.add("layout/nmol%d/pad%s" % (nmol, "yes" if (~real).any() else "no"))
+    jb = _judge_basic(count, margin, violate, cells, case, out, S, C0, alpha, tol, cap)
+    m, E, by_criterion, by_cap, tie, rF, rE, text = (jb[k] for k in ("m", "E", "by_criterion", "by_cap", "tie", "rF", "rE", "text"))
+    # ---- independent single points at recorded x_i ------------------------------------------------------
+    idx = list(range(n)) if n <= 8 else sorted(set([0, 1, 2, n - 3, n - 2, n - 1] + [int(i) for i in np.random.default_rng(case["geom_seed"] + 1).choice(n, 3, replace=False)]))
+    # C04's force bound is 2e3 eps_eff A; here the SCF is restarted from the density of the previous geometry at every
+    # evaluation (fixed mixing measured at 0.24 of that bound), so 5x that allowance keeps the margin >= 5x while a stale
+    # or sign-flipped force is >= 1e-3 eV/A
+    tolF = 1e4 * (eps_eff + EPS_REF) * A + 1e-9
+    tolE = 100 * (eps_eff + EPS_REF) * A + 1e-9  # C04's 20 eps_eff A, same x5 allowance (SP2 at its 1e-7 floor: 6.7 eps_eff seen)
+    # The independent evaluation is a cold start, so it may land on ANOTHER self-consistent solution than the warm-started
+    # run (seen: MNDO PH3, cold Pulay converges, flagged converged, to a state 37 eV above the one every other solver and
+    # the optimiser find).  That is C03/C04 territory, not a stale force: a row passes when the recorded (E, F) equal those
+    # of SOME cold-started solver at the recorded x_i; the alternates are only run for rows the first one does not match.
+    # Last resort (seen: AM1 H2S, the run's own first cold Pulay lands on a state 14 eV above the ground SCF solution
+    # and the optimiser then follows it by density reuse, so NO cold start reproduces it): a fresh Molecule + driver at
+    # x_i started from the density the run had at that evaluation.  Still a single point at the recorded geometry,
+    # outside the optimiser: a stale / sign-flipped / wrong-geometry force cannot match it.
+    def cold_solvers(i):
+        yield "pulay", run.settings(case["method"], eps=EPS_REF, converger=(2,), grad=case["grad"]), None
+        yield "adaptive", run.settings(case["method"], eps=EPS_REF, converger=(1,), grad=case["grad"]), None
+        yield "mix0.3", run.settings(case["method"], eps=EPS_REF, converger=(0, 0.3), grad=case["grad"]), None
+        if rec[i].get("dm") is not None:
+            warm = _settings(case)  # the run's own solver (another one may leave the state the run is on)
+            warm["scf_eps"] = EPS_REF
+            yield "warm-from-recorded-density", warm, rec[i]["dm"]
+
+    for i in idx:
+        best = [(float("inf"), float("inf"), None)] * nmol
+        ran = 0
+        for sname, sett, P0 in cold_solvers(i):
+            if all(bf <= tolF and be <= tolE for bf, be, _ in best):
+                break
+            sp = run.single_point(S, rec[i]["xb"], sett, charges=ch, mult=1, P0=P0)
+            ran += 1
+            ncv = sp["notconverged"]
+            for k in range(nmol):
+                if ncv is not None and bool(np.asarray(ncv).reshape(-1)[k]):
+                    continue
+                dFk = float(np.abs(sp["force"][k] - rec[i]["F"][k])[real[k]].max())
+                dEk = float(abs(sp["Etot"].reshape(-1)[k] - rec[i]["E"][k]))
+                if max(dFk / tolF, dEk / tolE) < max(best[k][0] / tolF, best[k][1] / tolE):
+                    best[k] = (dFk, dEk, sname)
+        if ran > 1:
+            count("independent_alternate_cold_solver_runs", ran - 1)
+        if any(bs is None for _, _, bs in best):
+            count("independent_single_point_not_converged")
+            continue
+        count("independent_single_points")
+        if any(bs != "pulay" for _, _, bs in best):
+            count("cold_pulay_found_another_scf_solution")
+        if any(bs == "warm-from-recorded-density" for _, _, bs in best):
+            count("run_follows_a_solution_no_cold_start_finds")
+        dF = max(bf for bf, _, _ in best)
+        dE = max(be for _, be, _ in best)
+        if margin("force_vs_independent_single_point", dF, tolF):
+            violate("force-is-that-of-the-recorded-geometry", evaluation=i + 1, max_diff=dF, bound=tolF,
+                    max_force=float(np.abs(rec[i]["F"]).max()), matched_solver=[bs for _, _, bs in best],
+                    vs_previous_geometry=None if i == 0 else float(np.abs(
+                        run.single_point(S, rec[i - 1]["xb"], _settings(case, cold=True), charges=ch, mult=1)["force"] - rec[i]["F"])[real].max()))
+        if margin("energy_vs_independent_single_point", dE, tolE):
+            violate("energy-is-that-of-the-recorded-geometry", evaluation=i + 1, max_diff=dE, bound=tolE,
+                    matched_solver=[bs for _, _, bs in best])
     # ---- row alone vs in batch --------------------------------------------------------------------------------------------
     if nmol > 1:
         for k in range(nmol):
